@@ -354,6 +354,15 @@ def check_history(case, ctx):
 
 # ------------------------------------------------------------------------------------------------ helpers
 @st.composite
+def _triangular(draw):
+    """a general lower-triangular system (non-zero diagonal, not necessarily unit) and a right-hand side"""
+    n = draw(st.integers(1, 5))
+    nz = st.integers(1, 16).flatmap(lambda m: st.sampled_from([m / 4.0, -m / 4.0]))
+    L = [[(draw(nz) if j == i else draw(st.integers(-16, 16)) / 4.0) if j <= i else 0.0 for j in range(n)] for i in range(n)]
+    return {"L": L, "b": [draw(st.integers(-32, 32)) / 4.0 for _ in range(n)]}
+
+
+@st.composite
 def _helper_cases(draw, tier):
     dim = draw(st.integers(2, 3))
     v = lambda: [draw(st.integers(-64, 64)) / 8.0 for _ in range(dim)]  # noqa: E731
@@ -362,6 +371,7 @@ def _helper_cases(draw, tier):
             "M1": [[draw(st.integers(-16, 16)) / 4.0 for _ in range(m)] for _ in range(n)],
             "M2": [[draw(st.integers(-16, 16)) / 4.0 for _ in range(k)] for _ in range(m)],
             "vec": [draw(st.integers(-16, 16)) / 4.0 for _ in range(m)],
+            "tri": draw(_triangular()),
             "k": draw(st.integers(0, 40)), "i": draw(st.integers(0, 44)), "vexp": draw(st.sampled_from([0, 0, 0, -66, -40, 40])),
             "lin": [draw(st.integers(-64, 64)) / 8.0, draw(st.integers(1, 64)) / 8.0 * draw(st.sampled_from([1.0, 1.0, -1.0])), draw(st.integers(2, 40))]}
 
@@ -412,6 +422,25 @@ def check_helpers(case, ctx):
     ctx.check([[F(x) for x in r] for r in prod] == ref.mat_mul(M1, M2), "matrix_multiply", "matrix_multiply(%r, %r) = %r" % (M1, M2, prod))
     pv = linalg.matrix_multiply(M1, vec)
     ctx.check([F(x) for x in pv] == [sum(F(M1[i][j]) * F(vec[j]) for j in range(len(vec))) for i in range(len(M1))], "matrix_vector_multiply", "matrix_multiply(%r, %r) = %r" % (M1, vec, pv))
+    if case.get("tri"):
+        # the substitutions behind the LU solvers: L y = b for any lower-triangular L, U x = y for any upper-triangular U
+        L, rhs = case["tri"]["L"], case["tri"]["b"]
+        n = len(L)
+        FL = [[F(x) for x in r] for r in L]
+        ye = []
+        for i in range(n):
+            ye.append((F(rhs[i]) - sum(FL[i][j] * ye[j] for j in range(i))) / FL[i][i])
+        y = linalg.forward_substitution([list(r) for r in L], list(rhs))
+        ctx.label("triangular-non-unit-leading-entry", L[0][0] != 1.0)
+        ctx.check(len(y) == n and all(abs(F(a) - e) <= F(1, 10 ** 10) * (1 + max(map(abs, ye))) for a, e in zip(y, ye)), "forward_substitution",
+                  "forward_substitution(%r, %r) = %r, exact solution of L y = b is %r" % (L, rhs, y, ref.fl(ye)))
+        U = [[L[j][i] for j in range(n)] for i in range(n)]
+        xe = [F(0)] * n
+        for i in range(n - 1, -1, -1):
+            xe[i] = (F(rhs[i]) - sum(FL[j][i] * xe[j] for j in range(i + 1, n))) / FL[i][i]
+        x = linalg.backward_substitution(U, list(rhs))
+        ctx.check(len(x) == n and all(abs(F(a) - e) <= F(1, 10 ** 10) * (1 + max(map(abs, xe))) for a, e in zip(x, xe)), "backward_substitution",
+                  "backward_substitution(%r, %r) = %r, exact solution of U x = y is %r" % (U, rhs, x, ref.fl(xe)))
     k, i = case["k"], case["i"]
     bc = linalg.binomial_coefficient(k, i)
     ctx.check(bc == (float(math.comb(k, i)) if i <= k else 0.0), "binomial_coefficient", "binomial_coefficient(%d, %d) = %r, exact %r" % (k, i, bc, math.comb(k, i) if i <= k else 0))
